@@ -66,7 +66,7 @@ pub fn run(args: &Args) {
                 loan-heavy operations drawn online. non-trivial = at least 3 successful operations of 3 kinds and a strict share-price change; distinct by hash".into();
     let mut rng = Rng::new(args.seed);
     if let Some(path) = &args.replay {
-        if read_replay(path)["failing_input"]["kind"] == "owner_borrower_deposit_during_loan" {
+        if crate::w_admin::read_replay(path)["failing_input"]["kind"] == "owner_borrower_deposit_during_loan" {
             owner_borrower_probe(&mut out);
             let bad = !out.monitor_failures.is_empty();
             for f in &out.monitor_failures { println!("REPLAY property predicate false: {}", f["what"]); }
